@@ -9,7 +9,7 @@ VARIABLE l
 
 Rng(s) == { s[i] : i \in 1..Len(s) }
 IsEv(k) == l <= Len(Log) /\ Log[l].ev = k /\ l' = l + 1
-Skipped == {"lookup", "describe_fail", "sync_deleted", "restart"}
+Skipped == {"lookup", "sync_deleted", "restart"}
 
 CloudOf(lst) == [e \in Enis |-> IF \E i \in 1..Len(lst) : lst[i].e = e
                                 THEN LET x == lst[CHOOSE i \in 1..Len(lst) : lst[i].e = e] IN
@@ -44,6 +44,7 @@ TGcDone  == IsEv("daemon_gc") /\ GcDone
 TRt      == IsEv("rt") /\ RtWrite(Log[l].by, RtOf(Log[l].pods), PnOf(Log[l].pods))
 TRecB    == IsEv("reconcile_begin") /\ ReconcileBegin
 TCrW     == IsEv("cr_write") /\ CrWrite(Log[l].ok)
+TEarly   == IsEv("describe_fail") /\ EarlyReturn
 TCr      == IsEv("cr") /\ CrUpdate(EnisOf(Log[l].enis), IpsOf(Log[l].ips))
 TCreateB == IsEv("create_begin") /\ LET e == Log[l] IN CreateBegin(e.n4, e.n6, e.type, e.rdma)
 TCreateE == IsEv("create_end") /\ LET e == Log[l] IN CreateEnd(e.e, e.type, e.rdma, e.primary, Rng(e.v4), Rng(e.v6))
@@ -68,7 +69,7 @@ TSynced  == IsEv("synced") /\ LET e == Log[l] IN
 
 TInit == Init /\ l = 1
 TNext == TReset \/ TSkip \/ TPodC \/ TPodG \/ TPodX \/ TPodR \/ TCniAdd \/ TCniDel \/ TFlush \/ TExist \/ TGcDone \/ TRt
-         \/ TRecB \/ TCrW \/ TCr \/ TCreateB \/ TCreateE \/ TAttach \/ TAssignB \/ TAssignE \/ TUnassB \/ TUnassE
+         \/ TRecB \/ TCrW \/ TEarly \/ TCr \/ TCreateB \/ TCreateE \/ TAttach \/ TAssignB \/ TAssignE \/ TUnassB \/ TUnassE
          \/ TDetach \/ TDeleteB \/ TDeleteE \/ TDescr \/ TDriftR \/ TDriftA \/ TDrain \/ TFix \/ TSynced
 TSpec == TInit /\ [][TNext]_<<vars, l>>
 
